@@ -84,7 +84,9 @@ func isConsumer(f string) bool {
 	return strings.HasPrefix(f, "verif/harness.consume") || strings.HasPrefix(f, "verif/harness.user")
 }
 
-func readRaceReports(from int64) []RaceReport {
+// readRaceReports parses the reports the race runtime wrote to its log between the two offsets
+// (to < 0: up to the end of the file).
+func readRaceReports(from, to int64) []RaceReport {
 	p := raceLogPath()
 	if p == "" {
 		return nil
@@ -93,7 +95,13 @@ func readRaceReports(from int64) []RaceReport {
 	if err != nil || int64(len(b)) <= from {
 		return nil
 	}
-	return parseRaceReports(string(b[from:]))
+	if to < 0 || to > int64(len(b)) {
+		to = int64(len(b))
+	}
+	if to <= from {
+		return nil
+	}
+	return parseRaceReports(string(b[from:to]))
 }
 
 func parseRaceReports(text string) []RaceReport {
